@@ -772,3 +772,216 @@ def rule_E1(ctx, prog, label, only_funcs=None, rule='E1'):
 def _site_sig(call):
     """Signature of an acquisition site without line numbers: callee + pretty-printed arguments."""
     return pp(call)[:70]
+
+
+# ====================================================================== E5 cache typestate (C14)
+
+def _stores(f):
+    """[(cnode-less) (lhs text, rhs node, assignment node)] for all plain assignments in f"""
+    out = []
+    for n in f.body.walk():
+        if n.kind == 'BinaryOperator' and n.op == '=':
+            out.append((pp(strip(n.kids[0], casts=True)), n.kids[1], n))
+    return out
+
+
+def _cnode_of(g, node):
+    for cn in g.nodes:
+        if cn.ast is not None and any(x is node for x in cn.ast.walk()):
+            return cn
+    return None
+
+
+def rule_E5(ctx, prog, label, rule='E5'):
+    from .cfg import cfg_of
+    rr = RuleResult(rule, 'allocator caches: a block handed out leaves its slot, an evicted block is released, cleanup empties every slot, views never free their parent')
+    cfg = prog.cfg
+
+    def ob(ok, name, what, f, why=''):
+        rr.instances += 1
+        rr.ob(ok, dict(obligation=name, function=f.name, verdict=what),
+              Finding(rule, '%s|%s|%s' % (rule, f.name, name), f.loc, f.name, '%s: %s' % (what, why or 'obligation no longer holds'), {}, label))
+
+    # ---- 5. mzd_free: data released only for non-windows; header always released
+    f = prog.func('mzd_free')
+    g = cfg_of(f)
+    calls = [c for c in f.body.find('CallExpr') if callee_name(c) == 'm4ri_mmc_free']
+    okc = bool(calls)
+    for c in calls:
+        cn = _cnode_of(g, c)
+        # reachable without taking the non-window edge of a branch on mzd_is_windowed(A)?
+        seen = set()
+        st = [g.entry]
+        while st:
+            n = st.pop()
+            if n.id in seen:
+                continue
+            seen.add(n.id)
+            safe = _windowed_safe_edge(n) if n.kind == 'branch' else None
+            for (lab, m) in n.succs:
+                if safe is not None and lab is safe:
+                    continue
+                st.append(m)
+        if cn is None or cn.id in seen:
+            okc = False
+    ob(okc, 'view-keeps-parent-data', 'the data block is released only on the branch !mzd_is_windowed(A)', f,
+       'm4ri_mmc_free(A->data, ...) is reachable for a window: freeing a view would free its parent\'s storage')
+    hdr = [c for c in f.body.find('CallExpr') if callee_name(c) == 'mzd_t_free']
+    pd = g.postdominators(exit_only=True)
+    ob(bool(hdr) and _cnode_of(g, hdr[0]).id in pd.get(g.entry.id, ()), 'header-always-released', 'mzd_t_free(A) is executed on every path', f)
+
+    # ---- 4. m4ri_fini
+    f = prog.func('m4ri_fini')
+    names = set(callee_name(c) for c in f.body.find('CallExpr'))
+    ob('m4ri_mmc_cleanup' in names and 'm4ri_destroy_all_codes' in names, 'fini-releases-everything',
+       'm4ri_fini calls m4ri_mmc_cleanup and m4ri_destroy_all_codes', f, 'calls: %s' % sorted(names))
+
+    if cfg['mmc']:
+        # ---- 1. m4ri_mmc_malloc
+        f = prog.func('m4ri_mmc_malloc')
+        g = cfg_of(f)
+        pd = g.postdominators(exit_only=True)
+        st_ = _stores(f)
+        hand = [(l, r, n) for (l, r, n) in st_ if pp(strip(r, casts=True)).endswith('.data') and not l.endswith('.data')]
+        ok = bool(hand)
+        why = 'no cached block is handed out any more' if not hand else ''
+        for (l, r, n) in hand:
+            slot = pp(strip(r, casts=True))[:-5]
+            cn = _cnode_of(g, n)
+            need = {slot + '.data': False, slot + '.size': False}
+            for (l2, r2, n2) in st_:
+                if l2 in need and (int_value(r2) == 0 or pp(strip(r2, casts=True)) in ('0', '((void *)0)', '(void *)0')):
+                    c2 = _cnode_of(g, n2)
+                    if c2 is not None and c2.id in pd.get(cn.id, ()):
+                        need[l2] = True
+            if not all(need.values()):
+                ok = False
+                why = 'after `%s` the slot is not cleared (%s): the same block can be handed out twice' % (pp(n), ', '.join(k for k, v in need.items() if not v))
+        ob(ok, 'handed-out-block-leaves-cache', 'a cached block that is returned has its slot\'s data and size cleared on every path', f, why)
+        # ---- 2. m4ri_mmc_free
+        f = prog.func('m4ri_mmc_free')
+        g = cfg_of(f)
+        dom = g.dominators()
+        p0 = f.params[0].name
+        st_ = _stores(f)
+        keep = [(l, r, n) for (l, r, n) in st_ if l.endswith('.data') and pp(strip(r, casts=True)) == p0]
+        ok = bool(keep)
+        why = ''
+        fs = None
+        for (l, r, n) in keep:
+            slot = l[:-5]
+            cn = _cnode_of(g, n)
+            # (a) under `slot.size == 0`
+            from .symbolic import FuncSym
+            fs = fs or FuncSym(f)
+            under_free = False
+            for ifs in fs.enclosing_all(n, ('IfStmt',)):
+                c = strip(ifs.kids[0], casts=True)
+                if c.kind == 'BinaryOperator' and c.op == '==' and pp(strip(c.kids[0], casts=True)) == slot + '.size' and int_value(c.kids[1]) == 0 \
+                        and any(x is n for x in ifs.kids[1].walk()):
+                    under_free = True
+            freed = False
+            for c in f.body.find('CallExpr'):
+                if callee_name(c) == 'm4ri_mm_free' and pp(strip(c.kids[1], casts=True)) == slot + '.data':
+                    c2 = _cnode_of(g, c)
+                    if c2 is not None and c2.id in dom.get(cn.id, ()):
+                        freed = True
+            if not (under_free or freed):
+                ok = False
+                why = '`%s` overwrites a slot that may hold a block without releasing it first' % pp(n)
+        ob(ok, 'evicted-block-released', 'a slot is overwritten only when empty or after its old block went to m4ri_mm_free', f, why)
+        # every path stores or frees the condemned block
+        sinks = set()
+        for (l, r, n) in keep:
+            sinks.add(_cnode_of(g, n).id)
+        for c in f.body.find('CallExpr'):
+            if callee_name(c) == 'm4ri_mm_free' and pp(strip(c.kids[1], casts=True)) == p0:
+                sinks.add(_cnode_of(g, c).id)
+        seen = set()
+        stk = [g.entry]
+        while stk:
+            n = stk.pop()
+            if n.id in seen or n.id in sinks:
+                continue
+            seen.add(n.id)
+            for (_l, m) in n.succs:
+                stk.append(m)
+        ob(g.exit.id not in seen, 'condemned-block-kept-or-freed', 'every path of m4ri_mmc_free stores the block in a slot or releases it', f,
+           'a path reaches the end of m4ri_mmc_free with the block neither cached nor freed (leak)')
+        # ---- 3. cleanup
+        f = prog.func('m4ri_mmc_cleanup')
+        loops = f.body.find('ForStmt')
+        ok = False
+        why = 'no loop over the slots'
+        for lp in loops:
+            body = lp.kids[4]
+            frees = [c for c in body.find('CallExpr') if callee_name(c) == 'm4ri_mm_free' and pp(strip(c.kids[1], casts=True)).endswith('.data')]
+            zero = [n for n in body.walk() if n.kind == 'BinaryOperator' and n.op == '=' and pp(strip(n.kids[0], casts=True)).endswith('.size') and int_value(n.kids[1]) == 0]
+            bound = pp(strip(lp.kids[2]).kids[1]) if strip(lp.kids[2]).kind == 'BinaryOperator' else ''
+            # the same bound as the slot search loops of malloc/free
+            other = []
+            for fn in ('m4ri_mmc_malloc', 'm4ri_mmc_free'):
+                for l2 in prog.func(fn).body.find('ForStmt'):
+                    if strip(l2.kids[2]).kind == 'BinaryOperator':
+                        other.append(pp(strip(l2.kids[2]).kids[1]))
+            if frees and zero and all(b == bound for b in other):
+                ok = True
+            elif frees and zero:
+                why = 'cleanup loop bound `%s` differs from the slot search bounds %s' % (bound, other)
+        ob(ok, 'cleanup-empties-every-slot', 'the cleanup loop covers the same slot range as malloc/free, releases occupied slots and zeroes their size', f, why)
+    if cfg['mzdcache']:
+        # ---- 6. mzd_t_free unlink
+        f = prog.func('mzd_t_free')
+        g = cfg_of(f)
+        dom = g.dominators()
+        frees = [c for c in f.body.find('CallExpr') if callee_name(c) == 'm4ri_mm_free' and pp(strip(c.kids[1], casts=True)) == 'cache']
+        st_ = _stores(f)
+        ok = bool(frees)
+        why = 'an emptied secondary header block is never released' if not frees else ''
+        for c in frees:
+            cn = _cnode_of(g, c)
+            relink_next = [n for (l, r, n) in st_ if l == 'cache->prev->next' and pp(strip(r, casts=True)) == 'cache->next']
+            relink_prev = [n for (l, r, n) in st_ if l == 'cache->next->prev' and pp(strip(r, casts=True)) == 'cache->prev']
+            if not relink_next or _cnode_of(g, relink_next[0]).id not in dom.get(cn.id, ()):
+                ok, why = False, 'the block is freed without `cache->prev->next = cache->next`'
+            if not relink_prev:
+                ok, why = False, 'the block is freed without repairing `cache->next->prev`'
+            # never the static first block: the free must not be reachable through the edge cache == &mzd_cache
+            seen = set()
+            stk = [g.entry]
+            while stk:
+                n = stk.pop()
+                if n.id in seen:
+                    continue
+                seen.add(n.id)
+                for (lab, m) in n.succs:
+                    if n.kind == 'branch':
+                        cc = strip(n.ast, casts=True)
+                        if cc.kind == 'BinaryOperator' and cc.op in ('==', '!=') and '&mzd_cache' in pp(cc) and 'cache' in pp(cc).replace('&mzd_cache', ''):
+                            # skip the edge on which cache != &mzd_cache
+                            if lab is (cc.op == '!='):
+                                continue
+                    stk.append(m)
+            if cn.id in seen:
+                ok, why = False, 'm4ri_mm_free(cache) is reachable with cache == &mzd_cache (static storage)'
+        ob(ok, 'header-block-unlinked-before-free', 'an emptied secondary header block is unlinked on both sides, is never the static block, and is released', f, why)
+    rr.require_floor(3, 'cache obligations')
+    return rr
+
+
+def _windowed_safe_edge(cn):
+    """branch on mzd_is_windowed(X): label of the edge on which X is NOT a window"""
+    c = cn.ast
+    neg = False
+    while True:
+        c = strip(c, casts=True)
+        if c is None:
+            return None
+        if c.kind == 'UnaryOperator' and c.op == '!':
+            neg = not neg
+            c = c.kids[0]
+            continue
+        break
+    if c.kind == 'CallExpr' and callee_name(c) == 'mzd_is_windowed':
+        return True if neg else False
+    return None
